@@ -129,6 +129,21 @@ pub fn check(case: &Case, obs: &mut Obs) -> Verdict {
         }
         overwide_exempt += 1;
     }
+    // fill's lines are output lines too: whenever fill does not simply join wrap's lines (its own shortcut, its
+    // own assembly), an over-wide line of fill must be one of wrap's (exempt) over-wide lines judged above
+    let filled = o.fill(text);
+    obs.calls += 1;
+    obs.bump("fill_lines_checked");
+    if filled != lines.join(o.le()) {
+        for fl in filled.split(o.le()) {
+            if ref_width(fl) > o.width && !lines.iter().any(|l| &**l == fl) {
+                return Verdict::Violated(format!(
+                    "line {:?} of fill's result has display width {} > width {} and is not one of wrap's unbreakable over-wide lines (break_words={})",
+                    fl, ref_width(fl), o.width, o.bw
+                ));
+            }
+        }
+    }
     if overwide_exempt > 0 {
         obs.bump("overwide_exempt_line");
     }
